@@ -58,6 +58,8 @@ def real_scheme(L):
 @st.composite
 def shipped_case(draw):
     L = draw(st.sampled_from(shipped.LIBS))
+    if draw(st.integers(0, 7)) == 0:
+        return dict(kind='shipped', lib=L, smiles=draw(molgen.remapped(None if L in ('BensonGA', 'PPY') else ('Ru' if L == 'XieGA2022' else 'Pt'))))
     smi = draw(molgen.mixed(WEIGHTS[L], metal='Ru' if L == 'XieGA2022' else 'Pt', max_heavy=draw(st.sampled_from([6, 9, 12, 18]))))
     return dict(kind='shipped', lib=L, smiles=smi)
 
